@@ -395,15 +395,32 @@ func runSubSync(c *core.Ctx) {
 	}
 	// CLOSE
 	{
-		ci := find("subscribers).Unsubscribe")
 		good := false
 		why := "no Unsubscribe call"
-		if ci != nil {
+		// (a REQ that is refused with CLOSED may end what was open under its id as well: every
+		// Unsubscribe names the session and the id of the message of its own clause; the CLOSE clause has one)
+		others := true
+		for _, ci := range calls(fn) {
+			if !strings.HasSuffix(an.CalleeName(ci.Common()), "subscribers).Unsubscribe") {
+				continue
+			}
 			_, isCall := ci.(*ssa.Call)
 			a := ci.Common().Args
-			good = isCall && inS(a[1]) == sess && inS(a[2]) == msgS+".SubscriptionID" && assertedType(fn, ci.Block(), msgP) == "ClientCloseMsg"
-			why = fmt.Sprintf("Unsubscribe(%s, %s)", inS(a[1]), inS(a[2]))
+			exact := isCall && inS(a[1]) == sess && inS(a[2]) == msgS+".SubscriptionID"
+			switch assertedType(fn, ci.Block(), msgP) {
+			case "ClientCloseMsg":
+				good = exact
+				why = fmt.Sprintf("Unsubscribe(%s, %s)", inS(a[1]), inS(a[2]))
+			case "ClientReqMsg":
+				others = others && exact
+			default:
+				others = false
+			}
+			if !exact {
+				why = fmt.Sprintf("Unsubscribe(%s, %s)", inS(a[1]), inS(a[2]))
+			}
 		}
+		good = good && others
 		c.Check(good, nil, fname(c, fn), "clause[CLOSE]", P.Pos(fn.Pos()), "CLOSE: Unsubscribe(session id, msg.SubscriptionID) synchronously", "CLOSE does not remove exactly (session id, msg.SubscriptionID): "+why)
 	}
 }
